@@ -616,6 +616,7 @@ func c27AllEmptyValue(name string, v []float64) bool {
 type c27Stats struct {
 	classes map[string]bool
 	nt      bool
+	ev      *vpEvidence
 }
 
 func (s *c27Stats) cl(name string) { s.classes[name] = true }
@@ -629,8 +630,8 @@ func c27Reduced(r c27Result) bool {
 	return false
 }
 
-func c27Prop(t vpT, c c27Case) (bool, []string) {
-	st := &c27Stats{classes: map[string]bool{}}
+func c27Prop(t vpT, c c27Case, ev *vpEvidence) (bool, []string) {
+	st := &c27Stats{classes: map[string]bool{}, ev: ev}
 	switch c.Q.Sub {
 	case "agg":
 		c27PropAgg(t, c, st)
@@ -1098,14 +1099,32 @@ func c27PropReduce(t vpT, c c27Case, st *c27Stats) {
 		}
 		got[r.Key] = r
 	}
+	// A mismatch between the reduced query and its irreducible twin is a violation unless the CASE carries the signature
+	// of a finding listed in known_findings.json (see c27KnownSig).
+	known := false
+	mismatch := func(format string, args ...any) {
+		if sig, what := c27KnownSig(q, R); sig != "" && vpKnownListed("C27", sig) {
+			if st.ev != nil {
+				st.ev.Known(sig, what)
+			}
+			known = true
+			st.nt = false
+			return
+		}
+		t.Fatalf(format, args...)
+	}
 	for _, w := range R2.Series {
+		if known {
+			return
+		}
 		r, ok := got[w.Key]
 		delete(got, w.Key)
 		if !ok {
 			if c27AllEmptyValue(name, w.V) {
 				continue
 			}
-			t.Fatalf("reduction changed the result: %s has no series {%s}, %s has %v\n sent: %+v\n reduced: %s\n engine: %s", e1, w.Key, e2, w.V, R.Sent, c27Show(R), c27Show(R2))
+			mismatch("reduction changed the result: %s has no series {%s}, %s has %v\n sent: %+v\n reduced: %s\n engine: %s", e1, w.Key, e2, w.V, R.Sent, c27Show(R), c27Show(R2))
+			continue
 		}
 		for i := range w.V {
 			ev, hasEmpty := c27EmptyValue(name)
@@ -1113,16 +1132,100 @@ func c27PropReduce(t vpT, c c27Case, st *c27Stats) {
 				continue // "no input": NaN and the empty value are not distinguished
 			}
 			if !c27Close(r.V[i], w.V[i], math.Abs(w.V[i])) {
-				t.Fatalf("reduction changed the result: series {%s} at t=%d: %s = %v, %s = %v\n queries sent for the first: %+v\n reduced: %s\n engine: %s",
+				mismatch("reduction changed the result: series {%s} at t=%d: %s = %v, %s = %v\n queries sent for the first: %+v\n reduced: %s\n engine: %s",
 					w.Key, R.Time[i]-c27Base, e1, r.V[i], e2, w.V[i], R.Sent, c27Show(R), c27Show(R2))
+				break
 			}
 		}
 	}
 	for k, r := range got {
+		if known {
+			return
+		}
 		if !c27AllEmptyValue(name, r.V) {
-			t.Fatalf("reduction changed the result: %s has series {%s} %v, %s has none\n sent: %+v\n engine: %s", e1, k, r.V, e2, R.Sent, c27Show(R2))
+			mismatch("reduction changed the result: %s has series {%s} %v, %s has none\n sent: %+v\n engine: %s", e1, k, r.V, e2, R.Sent, c27Show(R2))
 		}
 	}
+}
+
+// ---------------- listed findings (known_findings.json) ----------------
+//
+// Signatures are predicates over the case (query shape, explicit what) and the observed SeriesQuery; they are evaluated only
+// after a mismatch between the reduced query and its twin was found. Anything else stays a violation.
+//
+//   count-reduction:         a rule for count / count_over_time took part in the reduction (the storage counts events, the
+//                            engine counts series / points).
+//   reduction-explicit-what: the evaluator reduced although the explicit __what__ of the selector is not one the rules that
+//                            fired accept (reduceWhat refuses the pair), or the what the rule chain yields was not the one
+//                            sent to the storage (it was dropped).
+
+// rules that took part, innermost first
+func c27FiredRules(q c27Query, r c27Result) []string {
+	grouped, ranged := false, false
+	for _, sq := range r.Sent {
+		if len(sq.GroupBy) != format.MaxTags {
+			grouped = true
+		}
+		if sq.Range != 0 {
+			ranged = true
+		}
+	}
+	switch q.Shape {
+	case 0:
+		return []string{q.Op}
+	case 1:
+		return []string{q.Fn}
+	case 2:
+		if grouped {
+			return []string{q.Fn, q.Op}
+		}
+		return []string{q.Fn}
+	default:
+		if ranged {
+			return []string{q.Op, q.Fn}
+		}
+		return []string{q.Op}
+	}
+}
+
+// the pairing the rules document (reductions.go reduceWhat): (result, accepted)
+func c27RefReduceWhat(a, b string) (string, bool) {
+	if a == "" || (a == SumSec && b == Sum) || (a == CountSec && b == Count) {
+		return b, true
+	}
+	if a == b || (a == Sum && b == SumSec) || (a == Count && b == CountSec) {
+		return a, true
+	}
+	return a, false
+}
+
+func c27KnownSig(q c27Query, r c27Result) (sig, what string) {
+	if !c27Reduced(r) {
+		return "", ""
+	}
+	fired := c27FiredRules(q, r)
+	for _, rule := range fired {
+		if rule == "count" || rule == "count_over_time" {
+			return "count-reduction", "count()/count_over_time() pushed into the storage query return the number of events, the engine counts series/points (e.g. count(m{__what__=\"countsec\"}) = 6 vs 2)"
+		}
+	}
+	a := q.What
+	for _, rule := range fired {
+		rw := c27RuleWhat(rule)
+		if len(rw) == 0 {
+			return "", ""
+		}
+		var ok bool
+		if a, ok = c27RefReduceWhat(a, rw[0]); !ok {
+			return "reduction-explicit-what", "reduction applied although the explicit __what__ is not the one the rule stands for: the rules read the dead field VectorSelector.What instead of Whats (e.g. max(m{__what__=\"min\"}) = 1 vs 2)"
+		}
+	}
+	for _, sq := range r.Sent {
+		if len(sq.Whats) != 1 || sq.Whats[0].String() != a {
+			return "reduction-explicit-what", "the what chosen by the reduction rules is dropped: the storage query keeps the selector's what"
+		}
+	}
+	return "", ""
 }
 
 // ---------------- generators ----------------
@@ -1341,7 +1444,7 @@ func c27Run(t *testing.T, sub string, gen *rapid.Generator[c27Case]) {
 	rapid.Check(t, func(rt *rapid.T) {
 		c := gen.Draw(rt, "case")
 		vpRunCase(rt, "C27", sub, c, func() {
-			nt, cls := c27Prop(rt, c)
+			nt, cls := c27Prop(rt, c, ev)
 			ev.Case(nt, c, cls...)
 		})
 	})
@@ -1352,14 +1455,20 @@ func TestVerifC27OverTime(t *testing.T) { c27Run(t, "overtime", c27GenOverTime()
 func TestVerifC27Reduce(t *testing.T)   { c27Run(t, "reduce", c27GenReduce()) }
 
 func init() {
-	dec := func(t vpT, raw json.RawMessage) {
-		var c c27Case
-		if err := json.Unmarshal(raw, &c); err != nil {
-			t.Fatalf("decode: %v", err)
+	dec := func(sub string) func(t vpT, raw json.RawMessage) {
+		return func(t vpT, raw json.RawMessage) {
+			var c c27Case
+			if err := json.Unmarshal(raw, &c); err != nil {
+				t.Fatalf("decode: %v", err)
+			}
+			var ev *vpEvidence
+			if tb, ok := t.(testing.TB); ok {
+				ev = vpNewEv(tb, "C27", sub) // so that a listed finding met in a replay is reported by the driver
+			}
+			c27Prop(t, c, ev)
 		}
-		c27Prop(t, c)
 	}
-	vpReplayers["C27/agg"] = dec
-	vpReplayers["C27/overtime"] = dec
-	vpReplayers["C27/reduce"] = dec
+	vpReplayers["C27/agg"] = dec("agg")
+	vpReplayers["C27/overtime"] = dec("overtime")
+	vpReplayers["C27/reduce"] = dec("reduce")
 }
